@@ -189,6 +189,8 @@ impl ParallelRuleEngine {
 
                     let mut thread_results = Vec::new();
                     for rule in chunk {
+                        #[cfg(feature = "verif-hooks")]
+                        crate::verif_hooks::sched_point(30);
                         let start = Instant::now();
                         // Pass functions to evaluator
                         let fired =
@@ -221,6 +223,8 @@ impl ParallelRuleEngine {
                         });
                     }
 
+                    #[cfg(feature = "verif-hooks")]
+                    crate::verif_hooks::sched_point(31);
                     let mut results = results_clone.lock().unwrap();
                     results.extend(thread_results);
                 })
